@@ -40,7 +40,8 @@ def evaluate(prop, part, tier, cases, tag="cases"):
     terms = [part.to_gallina(c, obs[c["id"]]) for c in cases]
     res = core.coq_eval(prop, tier, part.IMPORTS, part.FN, terms, part.TY,
                         shard_size=getattr(part, "SHARD", 300), tag=part_name(part) + "_" + tag)
-    verdicts = {c["id"]: res[i] for i, c in enumerate(cases)}
+    proj = getattr(part, "PROJECT", None)
+    verdicts = {c["id"]: (proj(res[i], c, obs[c["id"]]) if proj else res[i]) for i, c in enumerate(cases)}
     return obs, verdicts
 
 
